@@ -787,6 +787,85 @@ func c13Scripted(r *Run, idx int) {
 	r.Distinct(fmt.Sprintf("scripted-admission/%d", idx%8))
 }
 
+// c13ReloadOverLeftover: "a successful load is admitted exactly as a Set with the cost and TTL the loader returned
+// would be" - also when the key's previous entry is still lying in the map: expired but not yet reclaimed (the Get
+// comes within a tick of the deadline), the way a Set over such an entry is an update and not a second insertion.
+// A cache of MaxSize 60 holds 20 permanent keys and one key whose loads carry a TTL; that key is read again right
+// after each deadline (virtual time, no tick in between), 10-30 times over. Afterwards the cache must account for
+// exactly the 21 entries it holds, nothing may have been evicted (the cache is a third full), and the permanent keys
+// must still be answered without the loader.
+func c13ReloadOverLeftover(r *Run, idx int) {
+	rng := r.Rng(int64(13900 + idx))
+	var mu sync.Mutex
+	var evicted []int
+	var loads atomic.Int64
+	kind := []string{"loading", "hybrid-loading"}[idx%2]
+	cost := int64(1 + idx/2%3)
+	a, err := newAnyCache(kind, anyOpts{MaxSize: 60 * cost,
+		Listener: func(k int, v int64, rs theine.RemoveReason) {
+			if rs == theine.EVICTED {
+				mu.Lock()
+				evicted = append(evicted, k)
+				mu.Unlock()
+			}
+		},
+		Loader: func(ctx context.Context, k int) (theine.Loaded[int64], error) {
+			n := loads.Add(1)
+			var ttl time.Duration
+			if k == 999 {
+				ttl = 5 * time.Second
+			}
+			return theine.Loaded[int64]{Value: n<<16 | int64(k), Cost: cost, TTL: ttl}, nil
+		}})
+	if err != nil {
+		r.Broken("build: %v", err)
+		return
+	}
+	defer a.closeAPI()
+	st := a.store()
+	for k := 0; k < 20; k++ {
+		_, _, _ = a.get(context.Background(), k)
+	}
+	_, _, _ = a.get(context.Background(), 999)
+	a.wait()
+	reloads := 10 + rng.Intn(21)
+	ran := 0
+	for i := 0; i < reloads; i++ {
+		st.VerifShiftClock(5*time.Second+time.Duration(1+rng.Intn(900))*time.Millisecond, true)
+		st.VerifRefreshClock()
+		l0 := loads.Load()
+		_, _, _ = a.get(context.Background(), 999)
+		if loads.Load() > l0 {
+			ran++
+		}
+	}
+	a.wait()
+	r.Eval(1)
+	r.Count("reload_over_leftover_rounds", 1)
+	r.Count("reloads_over_an_expired_unreclaimed_entry", int64(ran))
+	r.Distinct(fmt.Sprintf("reload-over-leftover/%s/cost=%d", kind, cost))
+	wit := map[string]any{"round": idx, "cache": kind, "cost_per_entry": cost, "reloads": ran}
+	label := fmt.Sprintf("reload round %d (%s cache, MaxSize %d, 21 keys of cost %d, the TTL key reloaded %d times right after its deadline)", idx, kind, 60*cost, cost, ran)
+	mu.Lock()
+	ev := append([]int(nil), evicted...)
+	mu.Unlock()
+	if len(ev) > 0 {
+		r.Violate("load-not-admitted-as-a-set/evictions-from-a-cache-a-third-full/after-reloads-over-an-expired-entry", fmt.Sprintf("%s: %d entries were reported EVICTED (first key %d)", label, len(ev), ev[0]), wit)
+		return
+	}
+	if es, want := int64(st.EstimatedSize()), 21*cost; es != want {
+		r.Violate("load-not-admitted-as-a-set/estimated-size-differs/after-reloads-over-an-expired-entry", fmt.Sprintf("%s: EstimatedSize is %d, the entries held cost %d", label, es, want), wit)
+		return
+	}
+	l0 := loads.Load()
+	for k := 0; k < 20; k++ {
+		_, _, _ = a.get(context.Background(), k)
+	}
+	if n := loads.Load() - l0; n > 0 {
+		r.Violate("load-not-admitted-as-a-set/resident-keys-lost/after-reloads-over-an-expired-entry", fmt.Sprintf("%s: %d of the 20 permanent keys had to be loaded again", label, n), wit)
+	}
+}
+
 func runC13(r *Run) {
 	r.Rule("case = one round on a fresh loading cache: 2-64 callers issue Gets (each in its own goroutine) on 1-8 keys (same or different shards) against a loader whose outcome per invocation (value / error / panic / Goexit) and duration come from the PRNG, with interleaved Set/Delete and late arrivals; or one scripted sequence (admission of loaded cost/TTL/oversize; leader parked before singleflight clean-up). Non-trivial = a round with >=2 callers and >=1 failing invocation, distinct by configuration + outcome sequence")
 	r.Assume("every loader outcome is unique (invocation number embedded in value / error / panic text), so a result identifies its invocation",
@@ -815,5 +894,10 @@ func runC13(r *Run) {
 			continue
 		}
 		c13Scripted(r, i)
+	}
+	for i := 0; i < r.Pick(3, 24); i++ {
+		if i%r.NShards == r.Shard {
+			c13ReloadOverLeftover(r, i)
+		}
 	}
 }
